@@ -174,6 +174,21 @@ def extra(tier, seed, stats):
     for g in groups:
         for chain in (["fasta"], ["msf"], ["clu"], ["msf", "clu", "fasta"]):
             ncases.append({"src": {"names": list(g), "rows": rows4, "source": "synthetic"}, "chain": chain})
+    # tall alignments whose first 50 / 51 / 60 rows (or last rows) are gap-free, gaps only in the few remaining rows
+    import random as _r
+    for k, n in ((50, 51), (50, 55), (51, 55), (60, 64), (50, 120)):
+        for tail_first in (False, True):
+            rnd = _r.Random(seed + k * 7 + n)
+            full = ["".join(rnd.choice("ACDEFGHIKLMNPQRSTVWY") for _ in range(66)) for _ in range(k)]
+            gapped = []
+            for i in range(n - k):
+                r = list(full[i % k])
+                for c in rnd.sample(range(66), 5 + i % 40):
+                    r[c] = "-"
+                gapped.append("".join(r))
+            rows_t = (gapped + full) if tail_first else (full + gapped)
+            for chain in (["fasta"], ["msf"], ["clu"], ["clu", "msf"]):
+                ncases.append({"src": {"names": ["t%d" % i for i in range(n)], "rows": rows_t, "source": "synthetic"}, "chain": chain})
     with ThreadPoolExecutor(max_workers=12) as ex:
         nres = list(ex.map(check, ncases))
     for c, r in zip(ncases, nres):
